@@ -337,5 +337,10 @@ class EncryptDecrypt(Spec):
         return [("canary", out.post["k_enc"][0] == out.post["k_other_child"][0])]
 
 
+def extra_checks(rep, tier):
+    from contracts import grid_dirnode
+    grid_dirnode.grid_check(rep, tier, "C19")
+
+
 def contracts(tier):
     return [PackUnpack(), ImmutableRefusal(), EncryptDecrypt()] + [AllowedInImmutable(*c) for c in ALLOWED_CLASSES]
